@@ -81,6 +81,38 @@ type excResolver struct {
 	prog    map[string]bool // function keys of the whole program
 	crossFn bool            // fingerprints identify the construct well enough to follow it into another function
 	norm    func(fp string) string
+	callers map[string]map[string]bool // function key -> the (outermost) functions that call it
+}
+
+func (r *excResolver) isNear(s, ek excSiteKey) bool {
+	rootOf := func(fn string) string {
+		if i := strings.Index(fn, "$"); i >= 0 {
+			return fn[:i]
+		}
+		return fn
+	}
+	return r.callers[s.fn][rootOf(ek.fn)] || r.callers[rootOf(s.fn)][rootOf(ek.fn)]
+}
+
+// near orders the candidates of another function of the package: an entry written for a function
+// that calls the site's function (the construct moved into a helper of it) comes first.
+func (r *excResolver) near(s excSiteKey, ks []string) []string {
+	rootOf := func(fn string) string {
+		if i := strings.Index(fn, "$"); i >= 0 {
+			return fn[:i]
+		}
+		return fn
+	}
+	var first, rest []string
+	for _, k := range ks {
+		ek, _ := parseExcKey(k)
+		if r.callers[s.fn][rootOf(ek.fn)] || r.callers[rootOf(s.fn)][rootOf(ek.fn)] {
+			first = append(first, k)
+		} else {
+			rest = append(rest, k)
+		}
+	}
+	return append(first, rest...)
 }
 
 // newExcResolver: sites are all sites enumerated by the run, scope the analysed functions.
@@ -101,6 +133,20 @@ func newExcResolver(c *Ctx, keys []string, sites, needing []excSiteKey, scope []
 	for _, f := range scope {
 		r.scope[shortFn(f)] = true
 		r.scope[exceptionKey(f)] = true
+	}
+	r.callers = map[string]map[string]bool{}
+	for f, edges := range c.G.Out {
+		from := exceptionKey(f)
+		for _, e := range edges {
+			to := exceptionKey(e.Callee)
+			if to == from {
+				continue
+			}
+			if r.callers[to] == nil {
+				r.callers[to] = map[string]bool{}
+			}
+			r.callers[to][from] = true
+		}
 	}
 	memo := map[string]string{}
 	r.norm = func(fp string) string {
@@ -222,8 +268,16 @@ func (r *excResolver) resolve(s excSiteKey) string {
 	var sameFn, samePkg []string
 	for k := range r.entries {
 		ek, ok := parseExcKey(k)
-		if !ok || ek.fp != s.fp || !r.orphaned(k, ek, ek.fn == s.fn) {
+		if !ok || ek.fp != s.fp {
 			continue
+		}
+		if !r.orphaned(k, ek, ek.fn == s.fn) {
+			// the entry's own key is still the key of a site, but that site is discharged without
+			// it (ordinals shifted when the construct moved out): the entry is unused, and a site
+			// in a helper that the entry's function calls may take it
+			if !(r.crossFn && !r.used[k] && !r.needing[k] && r.present[k] && ek.fn != s.fn && len(r.near(s, []string{k})) == 1 && r.isNear(s, ek)) {
+				continue
+			}
 		}
 		switch {
 		case ek.fn == s.fn:
@@ -234,6 +288,7 @@ func (r *excResolver) resolve(s excSiteKey) string {
 	}
 	sort.Strings(sameFn)
 	sort.Strings(samePkg)
+	samePkg = r.near(s, samePkg)
 	for _, k := range append(sameFn, samePkg...) {
 		r.used[k] = true
 		return k
@@ -257,6 +312,7 @@ func (r *excResolver) resolve(s excSiteKey) string {
 		}
 		sort.Strings(sameFnN)
 		sort.Strings(samePkgN)
+		samePkgN = r.near(s, samePkgN)
 		for _, k := range append(sameFnN, samePkgN...) {
 			r.used[k] = true
 			return k
@@ -284,15 +340,31 @@ func (r *excResolver) resolve(s excSiteKey) string {
 	// shape class — same operation on the same kind of container — still covers it, provided the
 	// rewritten expression brings no constant of its own (an offset that changed is a new claim)
 	if cls := shapeClass(s.fp); cls != "" {
-		var sameClass []string
+		// "the same function" includes a function of the package that no longer exists under the
+		// entry's name (renamed), and — after those — a helper that the entry's function calls
+		// (the loop body was extracted)
+		gone := func(ek excSiteKey) bool {
+			return r.crossFn && ek.fn != s.fn && !r.prog[ek.fn] && pkgOfFnKey(ek.fn) == pkgOfFnKey(s.fn)
+		}
+		var sameClass, renamed, helper []string
 		for k := range r.entries {
 			ek, ok := parseExcKey(k)
-			if ok && ek.fn == s.fn && r.orphaned(k, ek, true) && shapeClass(ek.fp) == cls && noNewLiterals(s.fp, ek.fp) {
+			if !ok || shapeClass(ek.fp) != cls || !noNewLiterals(s.fp, ek.fp) {
+				continue
+			}
+			switch {
+			case ek.fn == s.fn && r.orphaned(k, ek, true):
 				sameClass = append(sameClass, k)
+			case gone(ek) && r.orphaned(k, ek, false):
+				renamed = append(renamed, k)
+			case r.crossFn && ek.fn != s.fn && r.isNear(s, ek) && r.orphaned(k, ek, false):
+				helper = append(helper, k)
 			}
 		}
 		sort.Strings(sameClass)
-		for _, k := range sameClass {
+		sort.Strings(renamed)
+		sort.Strings(helper)
+		for _, k := range append(append(sameClass, renamed...), helper...) {
 			r.used[k] = true
 			return k
 		}
